@@ -1,4 +1,5 @@
 import Ebu.Spec.Locks
+import Ebu.Generated.Consts
 import Ebu.Proofs.Locks
 /-!
 C03 — Concurrent use of the API is free of data races and deadlocks.
@@ -64,6 +65,12 @@ theorem shard_index_in_range (h : Nat) :
   constructor
   · have := Nat.and_le_right (n := h) (m := 2 ^ 5 - 1); omega
   · exact Nat.and_two_pow_sub_one_eq_mod h 5
+
+/-- OBLIGATION: `getShard` in the current source computes exactly that expression – FNV-1a (32 bit)
+of the type's string, masked with `numShards - 1` – which is also what the model driver routes with -/
+theorem shard_routing_matches_source :
+    Ebu.Generated.Consts.shardIndexIsMask = true ∧ Ebu.Generated.Consts.shardHashIsFnv1a32 = true ∧
+    Ebu.Generated.Consts.shardKeyIsTypeString = true := by decide
 
 /-- non-vacuity: the tables are not empty and contain writes, reads and atomics -/
 example : accessFacts.length > 40 ∧ accessFacts.any (·.write) = true ∧ accessFacts.any (·.atomic) = true ∧
